@@ -27,7 +27,7 @@ import (
 )
 
 type PoolOp struct {
-	Op   string `json:"op"`             // acq | fill | rel | clear (the holder calls Clear itself) | fault
+	Op   string `json:"op"`             // acq | fill | rel | clear (the holder calls Clear itself) | fault | relnew (release of a self-made pack of an unpooled type)
 	Type string `json:"type,omitempty"` // acq: pack type
 	Ver  int32  `json:"ver,omitempty"`  // acq: requested version
 	Slot int    `json:"slot,omitempty"` // fill, rel: index into the packs currently held (modulo their number)
@@ -78,6 +78,19 @@ func drawPool(t *rapid.T) PoolCase {
 		case k >= 84:
 			// the holder re-uses its pack for a second message: it clears the pack itself (and will usually fill it again)
 			c.Ops = append(c.Ops, PoolOp{Op: "clear", Slot: rapid.IntRange(0, len(held)-1).Draw(t, "slot")})
+		case k >= 81 && k < 84:
+			// the holder releases a pack of a type the pool does not manage, which it constructed itself (seed C07-s23),
+			// and then takes two pooled packs at once
+			c.Ops = append(c.Ops, PoolOp{Op: "relnew", Type: rapid.SampledFrom(unpooledNames()).Draw(t, "foreign"),
+				Seed: rapid.IntRange(1, 255).Draw(t, "seed"), B: rapid.Bool().Draw(t, "b")})
+			for j := 0; j < 2; j++ {
+				ty := rapid.SampledFrom(all).Draw(t, "t-after-foreign")
+				c.Ops = append(c.Ops, PoolOp{Op: "acq", Type: ty, Ver: drawVersion(t)})
+				held = append(held, ty)
+				if pooled[ty] > 0 {
+					pooled[ty]--
+				}
+			}
 		case k < 67:
 			c.Ops = append(c.Ops, PoolOp{Op: "fill", Slot: rapid.IntRange(0, len(held)-1).Draw(t, "slot"),
 				Seed: rapid.IntRange(1, 255).Draw(t, "seed"), B: rapid.Bool().Draw(t, "b")})
@@ -89,6 +102,16 @@ func drawPool(t *rapid.T) PoolCase {
 		}
 	}
 	return c
+}
+
+func unpooledNames() []string {
+	var out []string
+	for _, d := range descs {
+		if !d.registered {
+			out = append(out, d.name)
+		}
+	}
+	return out
 }
 
 // ---- poison -------------------------------------------------------------------
@@ -350,6 +373,16 @@ func runPool(c PoolCase) *pbt.Result {
 			}
 			udp.ClosePack(h.p)
 			inPool[id] = h.d
+		case "relnew":
+			d := descByName[op.Type]
+			if d == nil || d.registered {
+				return pbt.Fail("op %d: %q is not a type outside the pool", i, op.Type)
+			}
+			q := d.mk(udp.UDP_PACK_VERSION)
+			keep = append(keep, q)
+			fillPoison(q, op.Seed, op.B, ptrs)
+			udp.ClosePack(q)
+			classes["released-a-pack-the-pool-does-not-manage:"+d.name] = true
 		case "fault":
 			d := descByName[op.Type]
 			if d == nil || !d.registered {
@@ -432,7 +465,7 @@ func b2i(b bool) int {
 
 var poolSpec = pbt.Register(pbt.Spec[PoolCase]{
 	Prop: "C07", Name: "pool",
-	Rule:  "histories of 3..40 acquire(type, version) / fill(poison in every exported field incl. maps, slices, pointers) / release / clear by the holder itself (the pack is re-used for a second message, usually filled again) / failed decode (ToPack of a poisoned datagram cut at a generated offset, panic recovered) over 1..3 of the 18 pooled types, run on a single P; after every acquire no field may contain poison (bool fields: value after re-acquisition must not follow the value stored before release); non-trivial = sync.Pool really handed back an object that had been poisoned and released earlier in the same history, or an acquire followed a failed decode; distinct by history",
+	Rule:  "histories of 3..40 acquire(type, version) / fill(poison in every exported field incl. maps, slices, pointers) / release / clear by the holder itself (the pack is re-used for a second message, usually filled again) / failed decode (ToPack of a poisoned datagram cut at a generated offset, panic recovered) / release of a self-constructed, poisoned pack of a type the pool does not manage followed by two acquisitions of any pooled type, over 1..3 of the 18 pooled types, run on a single P; after every acquire no field may contain poison (bool fields: value after re-acquisition must not follow the value stored before release); non-trivial = sync.Pool really handed back an object that had been poisoned and released earlier in the same history, or an acquire followed a failed decode; distinct by history",
 	Quick: 3000, Thorough: 20000,
 	Draw: drawPool, Run: runPool,
 })
